@@ -109,7 +109,15 @@ def _closed(ct, tier, seed):
             Zs = getattr(zs_, cls)()
             polys = {}
             for (n, m) in idx:
-                e = S.lift(Zs._radial_term(n, m, S.Sym(r))).e
+                try:
+                    e = S.lift(Zs._radial_term(n, m, S.Sym(r))).e
+                except Exception as ex:       # the function under contract raises inside its stated domain: a failed obligation
+                    polys[(n, m)] = sp.Integer(0)
+                    _clause(clauses, 'C10.radial.%s.unit_value_at_pupil_edge' % fam, False,
+                            '_radial_term(%d, %d, r) raises %s: %s' % (n, m, type(ex).__name__, ex))
+                    fails.append({'clause': 'C10.radial.%s.unit_value_at_pupil_edge' % fam, 'draws': {'family': fam, 'n': n, 'm': m},
+                                  'note': '_radial_term raises %s' % type(ex).__name__})
+                    continue
                 polys[(n, m)] = sp.expand(e)
                 _clause(clauses, 'C10.radial.%s.unit_value_at_pupil_edge' % fam, sp.simplify(polys[(n, m)].subs(r, 1) - 1) == 0,
                         'R_%d^%d(1) = %s' % (n, m, polys[(n, m)].subs(r, 1)))
@@ -138,6 +146,22 @@ def _closed(ct, tier, seed):
             if len(idx) <= 40:
                 _clause(clauses, 'C10.poly.%s.uses_every_assigned_coefficient' % fam, False, 'index table has only %d entries' % len(idx))
                 continue
+            # a series with a single unit coefficient is that term, for every one of the 120 positions (public evaluation at the pupil edge)
+            for j, (nj, mj) in enumerate(idx):
+                Z3 = getattr(zr, cls)()
+                Z3.coeffs = [0.0] * j + [1.0]
+                try:
+                    got = abs(float(Z3.poly(1.0, 0.3)))
+                except Exception as ex:
+                    got = float('nan')
+                Nj = 1.0 if fam == 'fringe' else math.sqrt((2 * nj + 2) / (2.0 if mj == 0 else 1.0))
+                wantj = Nj * abs(math.cos(mj * 0.3) if mj >= 0 else math.sin(mj * 0.3))
+                okj = abs(got - wantj) < 1e-9 * max(1.0, wantj)
+                _clause(clauses, 'C10.poly.%s.single_coefficient_series_is_that_term_at_the_pupil_edge' % fam, okj,
+                        'term %d (n, m)=(%d, %d): |poly(1, 0.3)| = %r, want %r' % (j + 1, nj, mj, got, wantj))
+                if not okj:
+                    fails.append({'clause': 'C10.poly.%s.single_coefficient_series_is_that_term_at_the_pupil_edge' % fam,
+                                  'draws': {'family': fam, 'term': j + 1, 'n': nj, 'm': mj}, 'note': 'got %r want %r' % (got, wantj)})
             n_, m_ = idx[40]
             want_v = Z2._norm_constant(n_, m_) * Z2._radial_term(n_, m_, 0.7) * Z2._azimuthal_term(m_, 0.3)
             _clause(clauses, 'C10.poly.%s.uses_every_assigned_coefficient' % fam, abs(v1 - want_v) < 1e-12, 'term 41: %s vs %s' % (v1, want_v))
